@@ -211,6 +211,20 @@ def rule_dev_trunc(cx, rid, em, only=None):
                 if core[0] == "lit" and isinstance(core[1], str) and len(core[1]) <= 3:
                     # a single character: the enclosing loop must be bounded by the width
                     bounded = any(("cols" in st.hi.get(v, ()) or "width" in st.hi.get(v, ())) for v in st.hi if "." not in v and not v.startswith("@"))
+                    if not bounded and [pn for pn, _pt in f.get("params", [])] == ["lcd", "cols", "row"]:
+                        # another loop shape (counting down, ...): the helper is small and closed - evaluate it (C semantics)
+                        # for a range of widths and count the characters it prints
+                        from .. import ckern
+                        bounded = True
+                        for cols_ in (0, 1, 2, 7, 16, 20, 40):
+                            k_ = ckern.CallKern(fns, env={"lcdobj": 0})
+                            try:
+                                k_.ev(("call", n, [("var", "lcdobj"), ("lit", cols_), ("lit", 1)]))
+                            except ckern.KernUnsupported:
+                                bounded = False
+                                break
+                            if sum(len(str(a_[0])) for nm_, a_ in k_.events if nm_ == "print" and a_) > cols_:
+                                bounded = False
                     r.check(bounded, f"{n}/char-print-bounded-by-cols", (em.rel, em.const("LCD_HELPER_SNIPPET").lineno), f"{n}: `{show(e)}` is not inside a loop whose counter is bounded by cols", sample=f"{n}: print(' ') for i < cols")
                     return
                 nm = lname(core)
@@ -306,64 +320,7 @@ def run(cx):
         r.check(out.kind == "raise" and out.value == "ValueError", f"{fn_name}/unknown-rejected", (pm, clos[fn_name]), f"unknown name -> {out!r}")
 
     # ---- C17-HOST-WIDTH ----------------------------------------------------------------------
-    r = cx.rule("C17-HOST-WIDTH", "every store into the host LCD buffer keeps the row exactly `cols` wide and targets a validated row", floor=8)
-    for q, fn in hm.funcs.items():
-        if not q.startswith("LCD."):
-            continue
-        loc = Locals(fn)
-        for n in walk_local(fn, include_self=False):
-            if not isinstance(n, ast.Assign):
-                continue
-            t = n.targets[0]
-            if norm(t) == "self.buffer":
-                ok = norm(n.value) == "[' ' * self.cols for _ in range(self.rows)]"
-                r.check(ok, f"{q}/buffer-rebuilt-full-width", (hm, n), f"`{stmt_key(n)}`")
-                continue
-            if not (isinstance(t, ast.Subscript) and norm(t.value) == "self.buffer"):
-                continue
-            # row index
-            idx = norm(t.slice)
-            idx_src = loc.resolve(t.slice)
-            ok_row = (isinstance(idx_src, ast.Call) and norm(idx_src.func) == "self._validate_row") or idx in ("state.row",)
-            r.check(ok_row, f"{q}/row-validated[{idx}]", (hm, n), f"`{stmt_key(n)}`: row index {idx} is not the result of _validate_row")
-            v = n.value
-            vt = norm(v)
-            ok_w = False
-            why = vt
-            if vt == "' ' * self.cols":
-                ok_w = True
-            elif isinstance(v, ast.Call) and isinstance(v.func, ast.Attribute) and v.func.attr == "ljust" and [norm(a) for a in v.args] == ["self.cols"]:
-                src = v.func.value
-                defs = loc.defs.get(src.id, []) if isinstance(src, ast.Name) else [src]
-                ok_w = bool(defs) and all(isinstance(d, ast.Subscript) and isinstance(d.slice, ast.Slice) and d.slice.lower is None and norm(d.slice.upper) == "self.cols" for d in defs)
-                why = f"{vt} with {[norm(d) for d in defs]}"
-            elif isinstance(v, ast.Call) and norm(v.func) == "''.join" and len(v.args) == 1 and isinstance(v.args[0], ast.Name):
-                lst = v.args[0].id
-                defs = loc.defs.get(lst, [])
-                base_ok = bool(defs) and all(norm(d) in ("[' '] * self.cols",) or (isinstance(d, ast.Call) and norm(d.func) == "list" and norm(d.args[0]).startswith("self.buffer[")) for d in defs)
-                # element writes must be bounds-guarded
-                writes = [w for w in walk_local(fn, include_self=False) if isinstance(w, ast.Assign) and isinstance(w.targets[0], ast.Subscript) and norm(w.targets[0].value) == lst]
-                guards_ok = True
-                for w in writes:
-                    i_txt = norm(w.targets[0].slice)
-                    cs = lexical_conds(hm, w)
-                    g1 = (f"0 <= {i_txt} < self.cols", True) in cs
-                    # or an earlier `if <idx> >= self.cols: break` in the same loop body
-                    par = hm.parent.get(w)
-                    sib = getattr(par, "body", [])
-                    g2 = any(isinstance(s, ast.If) and norm(s.test) == f"{i_txt} >= self.cols" and isinstance(s.body[-1], ast.Break) for s in sib[: sib.index(w)] if isinstance(s, ast.If)) if w in sib else False
-                    if not (g1 or g2):
-                        guards_ok = False
-                    # no append/insert/extend on the list
-                growth = [c for c in walk_local(fn, include_self=False) if isinstance(c, ast.Call) and isinstance(c.func, ast.Attribute) and norm(c.func.value) == lst and c.func.attr in ("append", "extend", "insert", "pop", "remove")]
-                ok_w = base_ok and guards_ok and not growth
-                why = f"join of {lst} ({[norm(d) for d in defs]}), {len(writes)} guarded element writes"
-            r.check(ok_w, f"{q}/row-store-keeps-width", (hm, n), f"`{stmt_key(n)}`: cannot see that the stored row is exactly cols wide ({why})", sample=f"{q}: {why[:60]}")
-    vr = hm.func("LCD._validate_row")
-    r.check("not 0 <= row_idx < self.rows" in norm(vr) and "raise ValueError" in norm(vr), "LCD._validate_row/range-check", (hm, vr), "_validate_row must reject rows outside 0..rows-1")
-    pt = hm.func("LCD._place_text")
-    txt = norm(pt)
-    r.check("content = content[:available_width]" in txt and "available_width = max(0, self.cols - max(0, int(start_col)))" in txt, "LCD._place_text/truncates-to-available-width", (hm, pt), "host text placement must truncate to the width right of start_col")
+    rule_host_width(cx, hm)
 
     # ---- C17-DEV-TRUNC -----------------------------------------------------------------------
     fns = rule_dev_trunc(cx, "C17-DEV-TRUNC", em)
@@ -558,3 +515,67 @@ def run(cx):
     # ---- binding of the LCD text arms (shared with C08) ---------------------------------------
     from . import c08
     c08.bind_rule(cx, "C17-BIND", "C17-MAP", only=("LCDDecl", "LCDWrite", "LCDLine", "LCDMessage", "LCDClear", "LCDDisplay", "LCDBacklight", "LCDBrightness", "LCDGlyph", "LCDProgress"), floor=50)
+
+
+
+def rule_host_width(cx, hm, rid="C17-HOST-WIDTH"):
+    """the host buffer keeps its shape: LCD methods evaluated (checker's interpreter) on four geometries, every start column,
+    texts from empty to longer than the row, every alignment; rows outside 0..rows-1 are refused"""
+    from . import c04
+    import itertools
+    r = cx.rule(rid, "after every LCD call of a grid (write/line/message/progress/clear/begin on 1x1, 8x2, 16x2 and 20x4 displays; columns 0..cols, texts of length 0..cols+3, three alignments, clear_row on/off) the host buffer has exactly `rows` rows of exactly `cols` characters; a row outside 0..rows-1 raises ValueError and leaves the buffer unchanged; text is cut at the right edge, never wrapped", floor=400, exhaustive=True)
+    n_bad = 0
+
+    def call(o, meth, args, kw=None):
+        try:
+            return dl.Interp(hm).call(hm.func(f"LCD.{meth}"), [o] + list(args), dict(kw or {}))
+        except dl.Unsupported as e:
+            raise AnalysisError(f"host LCD.{meth} left the evaluable subset: {e}")
+
+    def shape_ok(o, cols, rows):
+        return isinstance(o.buffer, list) and len(o.buffer) == rows and all(isinstance(x, str) and len(x) == cols for x in o.buffer)
+
+    for cols, rows in ((1, 1), (8, 2), (16, 2), (20, 4)):
+        def fresh():
+            return c04.host_object(hm, "LCD", rs=12, en=11, d4=5, d5=4, d6=3, d7=2, cols=cols, rows=rows)
+        texts = ["", "a", "x" * (cols - 1), "y" * cols, "z" * (cols + 3)] if cols > 1 else ["", "a", "abcd"]
+        cases = []
+        for col in sorted({0, 1, cols // 2, cols - 1, cols}):
+            for row in range(rows):
+                for text, al, clr in itertools.product(texts, ("left", "center", "right"), (True, False)):
+                    cases.append(("write", [col, row, text], {"align": al, "clear_row": clr}))
+        for row in range(rows):
+            for text, al in itertools.product(texts, ("left", "center", "right")):
+                cases.append(("line", [row, text], {"align": al}))
+            for v_, w_ in ((0, None), (5, None), (10, cols), (7, 3), (3, cols + 5)):
+                cases.append(("progress", [row, v_, 10], ({"width": w_} if w_ is not None else {})))
+        for top, bottom in itertools.product(texts[:4], repeat=2):
+            cases.append(("message", [top, bottom], {}))
+        cases += [("clear", [], {}), ("begin", [], {})]
+        for meth, args, kw in cases:
+            o = fresh()
+            call(o, "write", [0, 0, "#" * cols], {})       # a filled row: stale characters would show
+            out = call(o, meth, args, kw)
+            ok = shape_ok(o, cols, rows) and (out.kind == "return" or out.value == "ValueError")
+            if meth == "message" and rows < 2 and out.kind == "raise":
+                ok = shape_ok(o, cols, rows)
+            if ok:
+                r.ok(None)
+            else:
+                n_bad += 1
+                if n_bad <= 3:
+                    r.fail(f"LCD.{meth}/buffer-keeps-rows-x-cols", (hm, hm.func(f"LCD.{meth}")), f"{cols}x{rows} display: lcd.{meth}({', '.join(map(repr, args))}{', ' if kw else ''}{', '.join(f'{k_}={v_!r}' for k_, v_ in kw.items())}) -> {out!r}, buffer {o.buffer!r}", detail={"cols": cols, "rows": rows, "method": meth, "args": [repr(a_) for a_ in args]})
+                else:
+                    r.stat.obligations += 1
+                    r.stat.failed += 1
+        for meth, args in (("write", [0, rows, "x"]), ("write", [0, -1, "x"]), ("line", [rows, "x"]), ("line", [-1, "x"]), ("progress", [rows, 1, 2])):
+            o = fresh()
+            before = list(o.buffer)
+            out = call(o, meth, args)
+            r.check(out.kind == "raise" and out.value == "ValueError" and o.buffer == before, f"LCD.{meth}/row-outside-display-refused", (hm, hm.func(f"LCD.{meth}")), f"{cols}x{rows} display: lcd.{meth}({', '.join(map(repr, args))}) -> {out!r}, buffer {o.buffer!r}; a row outside 0..{rows - 1} must raise ValueError and change nothing")
+        # cut at the right edge: a text that starts in the last column shows exactly its first character there
+        if cols > 1:
+            o = fresh()
+            out = call(o, "write", [cols - 1, 0, "QRS"], {})
+            r.check(out.kind == "return" and o.buffer[0][-1] == "Q" and (rows < 2 or "R" not in o.buffer[1]), "LCD.write/cut-at-the-right-edge-not-wrapped", (hm, hm.func("LCD.write")), f"{cols}x{rows}: write({cols - 1}, 0, 'QRS') leaves {o.buffer!r}")
+    return r
